@@ -25,6 +25,7 @@ ENCODED = [
     "tensorly.decomposition._tucker.non_negative_tucker_hals",
     "tensorly.decomposition._parafac2._BroThesisLineSearch.line_step",
     "tensorly.decomposition._tr_als.tensor_ring_als",
+    "tensorly.decomposition._cp.randomised_parafac",
     "tensorly.decomposition._cmtf_als.coupled_matrix_tensor_3d_factorization",
     "tensorly.decomposition._cp.parafac",
     "tensorly.decomposition._cp.error_calc",
@@ -41,7 +42,7 @@ ENCODED = [
     "tensorly.cp_tensor.cp_to_tensor",
 ]
 BOUNDS = {
-    "quick": "orders 2-4, mode sizes 2 (one 3), rank 1-2, K <= 3 sweeps (8 for the line-search branch), option sets listed in configs()",
+    "quick": "orders 2-4, mode sizes 2 (one 3), rank 1-2, K <= 3 sweeps (8 for the line-search branch), option sets listed in configs(); randomised_parafac on 2x2 with 1-2 sampled rows (every index draw forked)",
     "thorough": "same plus rank 3 on 3x3x3 and 4 sweeps",
 }
 OUTSIDE = ["order-4 HOOI (shape (2,2,2,2), rank 1) and PARAFAC2 with slice heights (3,2) at rank 2 with normalisation: the value identity was left undecided by z3 within 100 s per query (measured), so these sizes are outside the claim", "CMTF: the docstring writes the reported quantity with factors 1/2, the code reports it without; the check uses the code's form (documentation mismatch, not a value defect)", "masked Tucker/HOOI (which quantity is 'the' error of a masked iterate -- observed entries or the tensor imputed from the previous iterate -- is not fixed by the property; observed while building: partial_tucker keeps the norm of the un-imputed tensor)", "more sweeps than K (covered inductively only because kernels are havoc'd)", "sizes > 3", "IEEE rounding except the explicit sqrt-argument obligation"]
@@ -128,6 +129,8 @@ def configs(tier):
     for shp, rank in [((2, 2, 2), [1, 2, 1, 1]), ((2, 2, 2), [2, 1, 2, 2]), ((2, 3, 2), [1, 1, 2, 1])] + ([] if q else [((2, 2, 2, 2), [1, 2, 1, 2, 1])]):
         for ls in ("lstsq", "normal_eq"):
             add("tr_als", shape=shp, rank=rank, ls=ls, K=2)
+    for shp, R, ns_, K_ in [((2, 2), 1, 1, 2), ((2, 2), 2, 2, 1)] + ([] if q else [((2, 2), 2, 2, 2), ((2, 2, 2), 1, 1, 2)]):
+        add("randomised", shape=shp, R=R, ns=ns_, K=K_, mode="fork", max_paths=4000)
     for R in (1, 2):
         add("cmtf", shape=(2, 2, 2), cols=2, R=R, K=2 if q else 3, mode="fork")
     add("parafac2", rows=(2, 2), J=2, R=1, opt="linesearch", K=7, mode="fork")
@@ -156,6 +159,8 @@ def harness(E, cfg):
         h_tr_als(E, cfg)
     elif fam == "cmtf":
         h_cmtf(E, cfg)
+    elif fam == "randomised":
+        h_randomised(E, cfg)
     else:
         raise KeyError(fam)
 
@@ -702,3 +707,36 @@ def h_cmtf(E, cfg):
     val = sq(Xo - M) + sq(Yo - N)
     E.prove("last_reported_value_is_error_of_returned_decomposition", E.eq(errs[-1], val))
     E.prove("coupled_factor_shared", E.eq_arrays(fs[0], fm[0]))
+
+
+def h_randomised(E, cfg):
+    """randomised_parafac (sampled MTTKRP rows; the integer draws fork over their range): every value in the returned list and every value
+    handed to the callback is the relative error of the iterate it comes with, the list and the callback values agree, and the last value
+    belongs to the returned decomposition"""
+    from vt import backend
+    from tensorly.decomposition import randomised_parafac
+
+    shp, R, ns_, K = cfg["shape"], cfg["R"], cfg["ns"], cfg["K"]
+    if E.symbolic:
+        backend.configure(solve="havoc", svd="havoc")
+    X = E.real("X", shp)
+    E.assume(E.Or([E.nonzero(x) for x in np.asarray(X, dtype=object).ravel()]))
+    F0 = [E.real(f"F{k}", (n, R)) for k, n in enumerate(shp)]
+    seen = []
+
+    def cb(cp, err=None):
+        w, fs = cp
+        seen.append((None if w is None else np.array(w, dtype=object if E.symbolic else float), [np.array(f, dtype=object if E.symbolic else float) for f in fs], err))
+
+    import warnings
+
+    with warnings.catch_warnings():
+        warnings.simplefilter("ignore")
+        res, errs = randomised_parafac(np.array(X), R, ns_, n_iter_max=K, init=(None, [np.array(f) for f in F0]), tol=1e-300, max_stagnation=50, return_errors=True, random_state=5, callback=cb)
+    E.prove("n_errors", len(errs) == K and len(seen) == K + 1)
+    w, fs = res
+    _err_obligations(E, "last_error_is_error_of_result", errs[-1], X, dense_cp(w, fs))
+    for j in range(1, len(seen)):
+        wj, fj, ej = seen[j]
+        _err_obligations(E, f"callback{j}/error_belongs_to_the_iterate_passed", ej, X, dense_cp(wj, fj))
+        E.prove(f"callback{j}/matches_list", E.eq(ej, errs[j - 1]))
